@@ -88,6 +88,9 @@ Base == [ pow |-> 30, nQueries |-> 10, logCosets |-> 2, logTrace |-> 9, nvf |-> 
           fri   |-> [logInput |-> 11, nLayers |-> 3, steps |-> <<0, 4, 3>>, logLast |-> 2,
                      inner |-> << [ncols |-> 16, vec |-> Vec(7, 5)], [ncols |-> 8, vec |-> Vec(4, 5)] >> ] ]
 
+\* Hi is the model's stand-in for a huge power of two (the harness lifts q*Hi + r to q*2^64 + r, q*2^128 + r and q*2^192 + r):
+\* numbers whose low machine word looks valid
+Hi == 1024
 Around(S) == UNION { {IF x = 0 THEN 0 ELSE x - 1, x, x + 1} : x \in S }
 Wrap == {P - 2, P - 1}
 Vals(S) == Around(S) \cup Wrap \cup {0}
@@ -119,6 +122,13 @@ Devs ==
   \cup { <<"fri.dropInnerRebalanced", 0>> }              \* last inner layer missing, its step moved into the last-layer bound
   \cup { <<"fri.addLayer", 0>> }                        \* one more layer, re-telescoped: still a valid configuration
   \cup { <<"cosetsWrap", v>> : v \in {P - 2, P - 1, 0} } \* blow-up exponent taken modulo the field, everything re-declared consistently
+  \cup { <<"hi.nQueries", v>> : v \in {Hi + 10, 3*Hi + 1} }      \* only the low word is in range
+  \cup { <<"hi.nLayers", v>> : v \in {Hi + 3} }
+  \cup { <<"hi.step2", v>> : v \in {Hi + 1, Hi + 4, 3*Hi + 2} } \* huge step, everything else re-declared consistently with it
+  \cup { <<"hi.logLast", v>> : v \in {Hi + 2, 3*Hi + 2} }       \* huge last-layer bound, consistently re-declared
+  \cup { <<"hi.logCosets", v>> : v \in {Hi + 2} }              \* huge blow-up exponent, consistently re-declared
+  \cup { <<"hi.ncols", v>> : v \in {Hi + 7} }
+  \cup { <<"hi.nvf", v>> : v \in {Hi + 5} }
   \cup { <<"traceShift", v>> : v \in {1, 2} }            \* trace exponent and every height +v, FRI description unchanged apart from heights
 
 Apply(c, d) ==
@@ -156,6 +166,21 @@ Apply(c, d) ==
     [] d[1] = "traceShift" -> LET e == c.logTrace + d[2] + c.logCosets IN
                               [c EXCEPT !.logTrace = @ + d[2], !.orig.vec.height = e, !.inter.vec.height = e, !.comp.vec.height = e,
                                         !.fri.logInput = e, !.fri.inner[1].vec.height = e - 4, !.fri.inner[2].vec.height = e - 7]
+    [] d[1] = "hi.nQueries" -> [c EXCEPT !.nQueries = d[2]]
+    [] d[1] = "hi.nLayers" -> [c EXCEPT !.fri.nLayers = d[2]]
+    [] d[1] = "hi.ncols" -> [c EXCEPT !.orig.ncols = d[2]]
+    [] d[1] = "hi.nvf" -> [c EXCEPT !.nvf = d[2]]
+    [] d[1] = "hi.step2" -> LET e == d[2] + 7 IN
+                            [c EXCEPT !.fri.steps[2] = d[2], !.fri.inner[1].ncols = Pow2(d[2] % Hi), !.logTrace = d[2] + 5,
+                                      !.orig.vec.height = e, !.inter.vec.height = e, !.comp.vec.height = e, !.fri.logInput = e]
+    [] d[1] = "hi.logLast" -> LET e == d[2] + 9 IN
+                              [c EXCEPT !.fri.logLast = d[2], !.logTrace = d[2] + 7, !.fri.logInput = e,
+                                        !.orig.vec.height = e, !.inter.vec.height = e, !.comp.vec.height = e,
+                                        !.fri.inner[1].vec.height = e - 4, !.fri.inner[2].vec.height = e - 7]
+    [] d[1] = "hi.logCosets" -> LET e == d[2] + 9 IN
+                                [c EXCEPT !.logCosets = d[2], !.fri.logInput = e,
+                                          !.orig.vec.height = e, !.inter.vec.height = e, !.comp.vec.height = e,
+                                          !.fri.inner[1].vec.height = e - 4, !.fri.inner[2].vec.height = e - 7]
     [] d[1] = "fri.dropStep" -> [c EXCEPT !.fri.steps = SubSeq(@, 1, Len(@) - 1)]
     [] d[1] = "fri.dropInner" -> [c EXCEPT !.fri.inner = SubSeq(@, 1, Len(@) - 1)]
 
@@ -178,6 +203,6 @@ Next == Run
 Exact == verdict # "pending" => ((verdict = "ok") <=> ConfigOK(cfg, sec, 7, 3))
 NoPanic == verdict # "panic"
 EmitReplay == (Emit /\ verdict # "pending") =>
-    PrintT(<<"REPLAY", ToJson([cfg |-> cfg, sec |-> sec, n1 |-> 7, n2 |-> 3, devs |-> devs, P |-> P,
+    PrintT(<<"REPLAY", ToJson([cfg |-> cfg, sec |-> sec, n1 |-> 7, n2 |-> 3, devs |-> devs, P |-> P, hi |-> Hi,
                                model |-> verdict, expect |-> IF ConfigOK(cfg, sec, 7, 3) THEN "ok" ELSE "reject"])>>)
 =============================================================================
